@@ -966,6 +966,11 @@ func (c *Case) httpHeader(ct string) http.Header {
 	if c.AcceptEnc != "" {
 		h.Set("Accept-Encoding", c.AcceptEnc)
 	}
+	if c.Route == "" && c.Accept == "-" {
+		h.Del("Accept")
+	} else if c.Route == "" && c.Accept != "" {
+		h.Set("Accept", c.Accept)
+	}
 	return h
 }
 
